@@ -896,3 +896,11 @@ func trunc(s string) string {
 	}
 	return s
 }
+
+// KeyedOp / ApplyEvent / ApplyContext / ApplyArray are the exported entry points used by checks that
+// drive the API themselves.
+func (g *G) KeyedOp(fe int, depth int, stack *bool) *Op { return g.keyedOp(fe, depth, stack) }
+
+func (x *Exec) ApplyEvent(e *zerolog.Event, op *Op) *zerolog.Event { return x.applyEvent(e, op) }
+
+func (x *Exec) ApplyContext(c zerolog.Context, op *Op) zerolog.Context { return x.applyContext(c, op) }
